@@ -56,6 +56,11 @@ def run(idx, rep, tier):
     from . import c11
     n, msg = c11.run_sequences(idx, 3)
     rep.check(msg is None, "R6", "csvpath/managers/files/file_manager.py::a named file delivers the content registered last", msg or f"{n} operation sequences", "csvpath/managers/files/file_manager.py")
+    # the headers a run resolves #names against are this file's: a cached header row belongs to the very file (path, size, mtime) it was read from
+    from . import c19, c10
+    c19.r2(idx, K.as_rule(rep, "R5", keep=lambda k: "_cache_name" in k or "cache entries are tied" in k or "partial cache" in k or "header cache round trip" in k))
+    # the lines a group run returns are this run's: the run directory (whose data.csv is opened for append) is re-derived for every run
+    c10.run_state(idx, K.as_rule(rep, "R3"), "R3")
     rep.stats["exhaustive"] = True
 
 
